@@ -1,7 +1,9 @@
 # ruff: noqa: E721
 import builtins
 import math
+import unicodedata
 from enum import Enum
+from keyword import iskeyword
 from typing import Any, Optional
 
 BUILTIN_TO_NAME = {
@@ -10,6 +12,17 @@ BUILTIN_TO_NAME = {
     if not name.startswith("__") and name != "_"
 }
 NAME_TO_BUILTIN = {name: obj for obj, name in BUILTIN_TO_NAME.items()}
+
+
+def can_be_keyword_arg(name: str) -> bool:
+    """Checks that ``func(name=value)`` is valid syntax passing the parameter named exactly ``name``,
+    otherwise the parameter must be passed via ``func(**{'name': value})``, e.g. TypedDict key ``from``
+    """
+    return (
+        not iskeyword(name)
+        and name != "__debug__"
+        and unicodedata.is_normalized("NFKC", name)  # compiler applies NFKC normalization to identifiers
+    )
 
 
 class _CannotBeRenderedError(Exception):
